@@ -171,6 +171,22 @@ func (c *Ctx) Finish(start time.Time) int {
 			c.fatal = append(c.fatal, fmt.Sprintf("rule %s matched %d instances, below its floor %d: the rule has gone blind (anchors moved?)", rule, c.instances[rule], n))
 		}
 	}
+	// presence baseline: every rule that matched sites when it was confirmed by hand still matches at least one
+	if b, err := os.ReadFile(filepath.Join(verif, "tool", "rule_baseline.json")); err != nil {
+		c.fatal = append(c.fatal, "tool/rule_baseline.json unreadable: "+err.Error())
+	} else {
+		var bl struct {
+			Rules map[string][]string `json:"rules"`
+		}
+		if err := json.Unmarshal(b, &bl); err != nil {
+			c.fatal = append(c.fatal, "tool/rule_baseline.json: "+err.Error())
+		}
+		for _, rule := range bl.Rules[c.Property] {
+			if c.instances[rule] == 0 {
+				c.fatal = append(c.fatal, fmt.Sprintf("rule %s matched no site at all (it matched some when it was confirmed): the rule has gone blind (anchors moved?)", rule))
+			}
+		}
+	}
 	for rule := range c.canaryWant {
 		if !c.canaryGot[rule] {
 			c.fatal = append(c.fatal, fmt.Sprintf("canary for rule %s did not fire: the rule no longer detects its known-bad example", rule))
